@@ -38,7 +38,9 @@ fn report(rec: &mut Recorder, o: &sw::Outcome) {
 fn main() {
     let args = Args::parse();
     let mut rec = Recorder::new(&args.out);
-    vh::quiet_panics();
+    if std::env::var("VH_LOUD").is_err() {
+        vh::quiet_panics();
+    }
     if let Some(p) = &args.replay {
         let lines = vh::read_replay_input(p);
         let mut i = 0;
@@ -70,19 +72,19 @@ fn main() {
     let fixed: Vec<(Spec, usize, usize)> = vec![
         // add racing a reader that sets up and seals
         (
-            Spec { cap: 2, keyseed: 7, wprog: vec![WOp::Add { dir: 1, par: 0 }, WOp::Add { dir: 2, par: 1 }],
+            Spec { cap: 2, keyseed: 7, warm: 1, wprog: vec![WOp::Add { dir: 1, par: 0 }, WOp::Add { dir: 2, par: 1 }],
                    rprogs: vec![vec![ROp::Setup { seal: true, x: 0 }, seal(0, 0), ROp::Ex(1)]] },
             9, 12,
         ),
         // remove racing a cached seal
         (
-            Spec { cap: 2, keyseed: 8, wprog: vec![WOp::Add { dir: 1, par: 0 }, WOp::Add { dir: 1, par: 1 }, WOp::Rm(0)],
+            Spec { cap: 2, keyseed: 8, warm: 2, wprog: vec![WOp::Add { dir: 1, par: 0 }, WOp::Add { dir: 1, par: 1 }, WOp::Rm(0)],
                    rprogs: vec![vec![ROp::Setup { seal: true, x: 1 }, seal(0, 0), seal(0, 0), ROp::Ex(0)]] },
             8, 11,
         ),
         // remove_if / remove_all with two readers
         (
-            Spec { cap: 3, keyseed: 9, wprog: vec![WOp::Add { dir: 2, par: 0 }, WOp::RmIf(Pred::Par(0)), WOp::Add { dir: 1, par: 2 }, WOp::RmAll],
+            Spec { cap: 3, keyseed: 9, warm: 1, wprog: vec![WOp::Add { dir: 2, par: 0 }, WOp::RmIf(Pred::Par(0)), WOp::Add { dir: 1, par: 2 }, WOp::RmAll],
                    rprogs: vec![vec![ROp::Setup { seal: false, x: 0 }, ROp::Open { kth: 0, fail: false }], vec![ROp::Ex(0), ROp::Ex(1)]] },
             6, 8,
         ),
